@@ -686,8 +686,9 @@ func (c *Ctx) subAddr(st types.Type, i int, base string) string {
 		c.declareFun(fn, []string{"Int"}, "Int")
 		inv := quoteSym(fmt.Sprintf("subinv|%s|%d", typeKey(st), i))
 		c.declareFun(inv, []string{"Int"}, "Int")
-		c.axioms = append(c.axioms, fmt.Sprintf("(forall ((r Int)) (! (and (= (%s (%s r)) r) (not (= (%s r) 0))) :pattern ((%s r))))", inv, fn, fn, fn))
+		c.addAxiom(fmt.Sprintf("(forall ((r Int)) (! (and (= (%s (%s r)) r) (not (= (%s r) 0))) :pattern ((%s r))))", inv, fn, fn, fn))
 	}
+	c.groundNZ(sApp(fn, base))
 	return sApp(fn, base)
 }
 
@@ -699,8 +700,9 @@ func (c *Ctx) elemAddr(t types.Type, arr, idx string) string {
 		i2 := quoteSym("elemidx|" + typeKey(t))
 		c.declareFun(i1, []string{"Int"}, "Int")
 		c.declareFun(i2, []string{"Int"}, c.idxSort())
-		c.axioms = append(c.axioms, fmt.Sprintf("(forall ((a Int) (i %s)) (! (and (= (%s (%s a i)) a) (= (%s (%s a i)) i) (not (= (%s a i) 0))) :pattern ((%s a i))))", c.idxSort(), i1, fn, i2, fn, fn, fn))
+		c.addAxiom(fmt.Sprintf("(forall ((a Int) (i %s)) (! (and (= (%s (%s a i)) a) (= (%s (%s a i)) i) (not (= (%s a i) 0))) :pattern ((%s a i))))", c.idxSort(), i1, fn, i2, fn, fn, fn))
 	}
+	c.groundNZ(sApp(fn, arr, idx))
 	return sApp(fn, arr, idx)
 }
 
@@ -831,8 +833,9 @@ func (c *Ctx) arrFieldAddr(st types.Type, i int, base string) string {
 		c.declareFun(fn, []string{"Int"}, "Int")
 		inv := quoteSym(fmt.Sprintf("arrfinv|%s|%d", typeKey(st), i))
 		c.declareFun(inv, []string{"Int"}, "Int")
-		c.axioms = append(c.axioms, fmt.Sprintf("(forall ((r Int)) (! (and (= (%s (%s r)) r) (not (= (%s r) 0))) :pattern ((%s r))))", inv, fn, fn, fn))
+		c.addAxiom(fmt.Sprintf("(forall ((r Int)) (! (and (= (%s (%s r)) r) (not (= (%s r) 0))) :pattern ((%s r))))", inv, fn, fn, fn))
 	}
+	c.groundNZ(sApp(fn, base))
 	return sApp(fn, base)
 }
 
@@ -901,4 +904,28 @@ func (c *Ctx) wideBits() int {
 		}
 	}
 	return 128
+}
+
+// addAxiom: quantified injectivity axioms for interior-address functions are only emitted
+// when the contract asks for them (opt injective=true); quantifiers in the background
+// make the solvers unable to report counterexamples for failing obligations.
+func (c *Ctx) addAxiom(a string) {
+	if c.con != nil && c.con.Opts["injective"] == "true" {
+		c.axioms = append(c.axioms, a)
+	}
+}
+
+// groundNZ: an interior address is never nil (ground instance; not under a binder)
+func (c *Ctx) groundNZ(term string) {
+	if strings.Contains(term, "q!") || strings.Contains(term, " r)") && strings.HasSuffix(term, " r)") {
+		return
+	}
+	if c.nzDone == nil {
+		c.nzDone = map[string]bool{}
+	}
+	if c.nzDone[term] {
+		return
+	}
+	c.nzDone[term] = true
+	c.asserts = append(c.asserts, sImp(c.curReach, sNot(sEq(term, "0"))))
 }
